@@ -80,9 +80,10 @@ def _zone_case(args):
                 prev = None
                 continue
             n += 1
+            if prev is not None:
+                nontrivial += 1
             if "C04" in props:
                 if prev is not None:
-                    nontrivial += 1
                     if prev.end != iv.start:
                         bad("C04.abut", f"interval ending {prev.end} is followed by one starting {iv.start}")
                     if prev.name == iv.name and prev.wall_offset == iv.wall_offset and prev.savings == iv.savings:
@@ -160,6 +161,45 @@ def _zone_case(args):
                         else:
                             if zone.at_strictly(ldt).to_instant() != want[0]:
                                 bad("C05.single", f"at_strictly({ldt}) differs")
+            if "C05" in props and prev is not None and n % sample_every == 0 and iv.has_end:
+                # start of day: the earliest instant whose local date is D, for the local dates around the transition
+                from pyoda_time import LocalDate
+
+                nxt = zone.get_zone_interval(iv.end)
+                T = iv.start
+                seen_days = set()
+                for off in (prev.wall_offset, iv.wall_offset):
+                    try:
+                        base = T._plus(off)._days_since_epoch
+                    except (OverflowError, ValueError):
+                        continue
+                    for dd in (base - 1, base, base + 1):
+                        if dd in seen_days or not (-4371000 < dd < 2932800):
+                            continue
+                        seen_days.add(dd)
+                        best = None
+                        for cand in (prev, iv, nxt):
+                            w = cand.wall_offset.seconds * 1_000_000_000
+                            lo_ns = dd * 86_400_000_000_000 - w
+                            hi_ns = lo_ns + 86_400_000_000_000
+                            s_ns = cand.start.to_unix_time_ticks() * 100 if cand.has_start else None
+                            e_ns = cand.end.to_unix_time_ticks() * 100 if cand.has_end else None
+                            a_ns = lo_ns if s_ns is None else max(lo_ns, s_ns)
+                            b_ns = hi_ns if e_ns is None else min(hi_ns, e_ns)
+                            if a_ns < b_ns and (best is None or a_ns < best):
+                                best = a_ns
+                        # intervals further away could also carry the date only if a neighbour is shorter than a day; skip those
+                        if best is None or (prev.has_start and (iv.start - prev.start).total_hours < 50) or (nxt.has_end and (nxt.end - nxt.start).total_hours < 50) or (iv.end - iv.start).total_hours < 50:
+                            continue
+                        date = LocalDate._ctor(days_since_epoch=dd)
+                        mapped += 1
+                        try:
+                            got = zone.at_start_of_day(date).to_instant().to_unix_time_ticks() * 100
+                        except Exception as e:  # noqa: BLE001
+                            bad("C05.start-of-day", f"at_start_of_day({date}) raised {type(e).__name__}")
+                            continue
+                        if got != best:
+                            bad("C05.start-of-day", f"at_start_of_day({date}) is not the earliest instant carrying that date (off by {(got - best) // 1_000_000_000}s)")
             prev = iv
     except Exception as e:  # noqa: BLE001
         import traceback
